@@ -7,7 +7,7 @@ CONSTANTS
   CallocShapes <- ShapesPool4
   SrcOffsets = {0, 1}
   HugeSizes <- HugeAll
-  Levels = {4, 5}
+  Levels = {0, 4, 5}
   Obs <- ObsEmit
 INVARIANTS TypeOK TableIsLiveSet UnknownPointerNoChange ReallocNullAllocates ReallocZeroFrees ReallocKeepsOthers RefusedChangesNothing
 PROPERTY LevelConstant
